@@ -172,6 +172,11 @@ class _Names:
                                 if isinstance(k, ast.Constant) and k.value == "line" and isinstance(v, ast.Attribute) and isinstance(v.value, ast.Name) \
                                         and v.value.id == mfi.params()[0]:
                                     lineno = v.attr
+            if raw is None:
+                # by use: the attribute the comment matcher takes as the whole line (what it holds is checked by the line rules)
+                for mfi, member, call in self._line_uses():
+                    if call is None and mfi.name == "match_Comment" and member not in cls.methods and member != "indent":
+                        raw = member
             if None in (raw, trimmed, lineno):
                 raise AnalysisError("anchor vanished: GherkinLine.__init__ no longer stores raw text / left-trimmed text / line number")
             return raw, trimmed, lineno
